@@ -38,6 +38,7 @@ import (
 	"github.com/ozontech/seq-db/logger"
 	"github.com/ozontech/seq-db/mappingprovider"
 	"github.com/ozontech/seq-db/metric/stopwatch"
+	"github.com/ozontech/seq-db/proxy/search"
 	pb "github.com/ozontech/seq-db/pkg/storeapi"
 	"github.com/ozontech/seq-db/seq"
 	"github.com/ozontech/seq-db/storeapi"
@@ -1581,6 +1582,47 @@ func idStringChannel(o vh.Opts, r *vh.RNG) *vh.Channel {
 	return ch
 }
 
+// fetchHopChannel: the IDs the store reads (storeapi.extractIDs) from the request the proxy builds (Ingestor.makeFetchReq)
+func fetchHopChannel(o vh.Opts, r *vh.RNG) *vh.Channel {
+	ch := vh.NewChannel("fetchhop", "storeapi.extractIDs over search.Ingestor.makeFetchReq vs SV.IDStr.extractIDs (makeFetchReq ids): lists of 0..6 IDs (boundary and random MID/RID, sorted or not), hints empty / fraction-like / arbitrary bytes; non-trivial = at least one id")
+	vals := []uint64{0, 1, 255, 256, 1<<32 - 1, 1 << 32, 1<<63 - 1, 1 << 63, ^uint64(0)}
+	hints := []string{"", "seq-db-01HZX", "a", "\x00\xff-"}
+	for i := 0; i < o.Pick(400, 6000); i++ {
+		n := r.Intn(7)
+		if i == 0 {
+			n = 0
+		}
+		ids := make([]seq.IDSource, n)
+		parts := make([]string, n)
+		for j := range ids {
+			m, rd := r.U64(), r.U64()
+			if r.Chance(1, 2) {
+				m, rd = vals[r.Intn(len(vals))], vals[r.Intn(len(vals))]
+			}
+			h := hints[r.Intn(len(hints))]
+			ids[j] = seq.IDSource{ID: seq.ID{MID: seq.MID(m), RID: seq.RID(rd)}, Hint: h}
+			parts[j] = fmt.Sprintf("%d:%d:%s", m, rd, vh.Hex([]byte(h)))
+		}
+		arg := strings.Join(parts, ",")
+		if n == 0 {
+			arg = "-"
+		}
+		impl := "err"
+		if got, err := storeapi.VerifC04ExtractIDs(search.VerifC04MakeFetchReq(ids)); err == nil {
+			out := make([]string, len(got))
+			for j, g := range got {
+				out[j] = fmt.Sprintf("%d:%d:%s", uint64(g.ID.MID), uint64(g.ID.RID), vh.Hex([]byte(g.Hint)))
+			}
+			impl = "ok " + strings.Join(out, ",")
+			if len(out) == 0 {
+				impl = "ok -" // the driver's canonical empty list
+			}
+		}
+		ch.Add("fetchhop "+arg, impl, n > 0, fmt.Sprintf("n=%d", n))
+	}
+	return ch
+}
+
 func docPosChannels(o vh.Opts, r *vh.RNG) (*vh.Channel, *vh.Channel, *vh.Channel) {
 	dp := vh.NewChannel("docpos", "seq.PackDocPos / DocPos.Unpack vs SV.Fetch.packDocPos / unpackDocPos (bits = 30): boundary values of block and offset, random, and raw uint64 positions incl. 0 and MaxUint64; non-trivial = all")
 	const bits = 30
@@ -2184,6 +2226,9 @@ func main() {
 	}
 	if run("idstr") {
 		rep.AddChannel(idStringChannel(o, rng.Fork()), o.Driver)
+	}
+	if run("fetchhop") {
+		rep.AddChannel(fetchHopChannel(o, rng.Fork()), o.Driver)
 	}
 	if run("docpos") || run("groupoffsets") || run("extract") {
 		a, b, c := docPosChannels(o, rng.Fork())
